@@ -7,8 +7,8 @@ From Tongo Require Import Model.Pool Model.PoolWait Proofs.PoolP.
 Import ListNotations.
 
 Ltac sred :=
-  cbn [head pend updq best readers writer wl next_id rpc wpc wid wch wgot woff log
-       set_head set_pend set_updq set_best set_readers set_writer set_wl set_next_id
+  cbn [head pend updq best readers writer wreq wl next_id rpc wpc wid wch wgot woff log
+       set_head set_pend set_updq set_best set_readers set_writer set_wreq set_wl set_next_id
        set_rpc set_wpc set_wid set_wch set_wgot set_woff set_log fst snd] in *.
 
 Lemma fupd_same {A} (f : nat -> A) i v : fupd f i v i = v.
@@ -37,6 +37,21 @@ Qed.
 Lemma lock_free_intro s : readers s = 0 -> writer s = None -> lock_free s = true.
 Proof. unfold lock_free. intros -> ->. reflexivity. Qed.
 
+Lemma no_writer_true s : no_writer s = true -> writer s = None /\ wreq s = None.
+Proof. unfold no_writer. destruct (writer s), (wreq s); try discriminate; auto. Qed.
+
+Lemma no_writer_intro s : writer s = None -> wreq s = None -> no_writer s = true.
+Proof. unfold no_writer. intros -> ->. reflexivity. Qed.
+
+Lemma is_wreq_run s : is_wreq s ARun = true -> wreq s = Some ARun.
+Proof. unfold is_wreq. destruct (wreq s) as [[|w]|]; congruence. Qed.
+
+Lemma is_wreq_w s w : is_wreq s (AW w) = true -> wreq s = Some (AW w).
+Proof.
+  unfold is_wreq. destruct (wreq s) as [[|w']|]; try congruence.
+  intros H. apply Nat.eqb_eq in H. congruence.
+Qed.
+
 Lemma is_writer_run s : is_writer s ARun = true -> writer s = Some ARun.
 Proof. unfold is_writer. destruct (writer s) as [[|w]|]; congruence. Qed.
 
@@ -48,7 +63,7 @@ Qed.
 
 (** inversion of one step: one goal per (label, branch) with the guards as hypotheses *)
 Ltac step_inv H :=
-  unfold step in H;
+  unfold step in H; cbn [andb] in H;
   repeat match type of H with
   | context [match ?x with _ => _ end] => destruct x eqn:?
   end;
@@ -58,6 +73,9 @@ Ltac step_inv H :=
 Ltac guards :=
   repeat match goal with
   | H : lock_free _ = true |- _ => apply lock_free_true in H as [? ?]
+  | H : no_writer _ = true |- _ => apply no_writer_true in H as [? ?]
+  | H : is_wreq _ ARun = true |- _ => apply is_wreq_run in H
+  | H : is_wreq _ (AW _) = true |- _ => apply is_wreq_w in H
   | H : is_writer _ ARun = true |- _ => apply is_writer_run in H
   | H : is_writer _ (AW _) = true |- _ => apply is_writer_w in H
   | H : _ && _ = true |- _ => apply andb_true_iff in H as [? ?]
@@ -70,9 +88,10 @@ Section Inv.
   Variable strat : strategy.
   Variable nconns : nat.
   Variable tgt : nat -> N.
-  Notation step := (step strat nconns tgt).
-  Notation run := (run strat nconns tgt).
-  Notation reachable := (reachable strat nconns tgt).
+  (* the real code: no critical section takes p.mu again ([reent] = false) *)
+  Notation step := (step strat false nconns tgt).
+  Notation run := (run strat false nconns tgt).
+  Notation reachable := (reachable strat false nconns tgt).
 
   Lemma run_app ls1 : forall s ls2,
     run s (ls1 ++ ls2) = match run s ls1 with Some s1 => run s1 ls2 | None => None end.
@@ -95,26 +114,35 @@ Section Inv.
 
   (** ---- 1. lock discipline ---- *)
 
+  Definition wants (pc : wait_pc) : bool :=
+    match pc with WSubW | WUnsubW _ => true | _ => false end.
+
   Definition lock_inv (s : state) : Prop :=
     readers s = match rpc s with RNotify _ _ _ => 1 | _ => 0 end /\
     (forall u mt rem, rpc s = RNotify u mt rem -> writer s = None) /\
     (writer s = Some ARun <-> rpc s = RUpd) /\
-    (forall w, writer s = Some (AW w) <-> wpc s w = WSubL).
+    (forall w, writer s = Some (AW w) <-> wpc s w = WSubL) /\
+    (wreq s = Some ARun <-> rpc s = RWantW) /\
+    (forall w, wreq s = Some (AW w) <-> wants (wpc s w) = true) /\
+    (writer s <> None -> wreq s = None) /\
+    (forall u, rpc s <> RInner u).
 
   Lemma lock_inv_init heads b : lock_inv (init_state heads b).
   Proof.
     unfold lock_inv, init_state. sred. repeat apply conj; try discriminate; try reflexivity.
-    all: intros w; split; discriminate.
+    all: try (intros w; split; discriminate).
   Qed.
 
   Lemma lock_inv_step s l s' : lock_inv s -> step s l = Some s' -> lock_inv s'.
   Proof.
-    intros (Hrd & Hmx & [Hrun1 Hrun2] & Hw) Hs. unfold lock_inv.
+    intros (Hrd & Hmx & [Hrun1 Hrun2] & Hw & [Hq1 Hq2] & Hqw & Hex & Hni) Hs. unfold lock_inv.
     assert (Hw1 := fun w => proj1 (Hw w)). assert (Hw2 := fun w => proj2 (Hw w)). clear Hw.
+    assert (Hqw1 := fun w => proj1 (Hqw w)). assert (Hqw2 := fun w => proj2 (Hqw w)). clear Hqw.
     step_inv Hs; guards; sred.
     all: repeat apply conj.
-    all: intros; try split; intros; fu; sred.
+    all: intros; try split; intros; fu; sred; cbn [wants] in *.
     all: try solve [eauto].
+    all: try discriminate.
     all: repeat match goal with
          | H : wpc _ ?w = WSubL |- _ => apply Hw2 in H
          | H : rpc _ = RUpd |- _ =>
@@ -122,14 +150,28 @@ Section Inv.
              | _ : writer _ = Some ARun |- _ => fail
              | _ => pose proof (Hrun2 H)
              end
+         | H : rpc _ = RWantW |- _ =>
+             lazymatch goal with
+             | _ : wreq _ = Some ARun |- _ => fail
+             | _ => pose proof (Hq2 H)
+             end
+         | H : wants (wpc _ ?w) = true |- _ => apply Hqw2 in H
          end.
     all: try match goal with H : writer _ = Some ARun |- _ => pose proof (Hrun1 H) end.
+    all: try match goal with H : wreq _ = Some ARun |- _ => pose proof (Hq1 H) end.
     all: try match goal with H : writer _ = Some (AW ?w) |- _ => pose proof (Hw1 _ H) end.
+    all: try match goal with H : wreq _ = Some (AW ?w) |- _ => pose proof (Hqw1 _ H) end.
     all: repeat match goal with
          | H : rpc _ = _ |- _ => rewrite H in *
          | H : writer _ = _ |- _ => rewrite H in *
+         | H : wreq _ = _ |- _ => rewrite H in *
+         | H : wpc _ _ = _ |- _ => rewrite H in *
          end.
+    all: cbn [wants] in *.
     all: try congruence; try lia; eauto.
+    all: try solve [exfalso; eapply Hni; eauto].
+    all: try solve [apply Hex; congruence].
+
   Qed.
 
   Theorem lock_inv_reachable heads b s :
@@ -145,7 +187,7 @@ Section Inv.
     (forall w w', wpc s w = WSubL -> wpc s w' = WSubL -> w = w') /\
     (forall w, wpc s w = WSubL -> rpc s <> RUpd).
   Proof.
-    intros Hr. destruct (lock_inv_reachable _ _ _ Hr) as (Hrd & Hmx & [Hrun1 Hrun2] & Hw).
+    intros Hr. destruct (lock_inv_reachable _ _ _ Hr) as (Hrd & Hmx & [Hrun1 Hrun2] & Hw & _).
     repeat apply conj.
     - intros Hwr. rewrite Hrd. destruct (rpc s) eqn:Hp; try reflexivity.
       exfalso. apply Hwr. eapply Hmx. reflexivity.
@@ -153,11 +195,29 @@ Section Inv.
     - intros w H1 H2. apply Hw in H1. apply Hrun2 in H2. congruence.
   Qed.
 
+  (** no goroutine asks for p.mu while it holds p.mu: the announced writer is not
+      inside (neither as writer nor as the reader Run), and Run asks for the read
+      lock only from outside *)
+  Theorem no_reacquire heads b s :
+    reachable (init_state heads b) s ->
+    (forall a, wreq s = Some a -> writer s = None /\ (a = ARun -> readers s = 0)) /\
+    (forall u, rpc s = RWantR u -> readers s = 0 /\ writer s <> Some ARun) /\
+    (forall u, rpc s <> RInner u).
+  Proof.
+    intros Hr. destruct (lock_inv_reachable _ _ _ Hr) as (Hrd & Hmx & [Hrun1 Hrun2] & Hw & [Hq1 Hq2] & Hqw & Hex & Hni).
+    repeat apply conj; [| |exact Hni].
+    - intros a Ha. split.
+      + destruct (writer s) eqn:Hwr; [|reflexivity]. rewrite Hex in Ha by discriminate. discriminate.
+      + intros ->. rewrite Hrd, (Hq1 Ha). reflexivity.
+    - intros u Hp. split; [rewrite Hrd, Hp; reflexivity|].
+      intros Hwr. apply Hrun1 in Hwr. congruence.
+  Qed.
+
   (** ---- 2. the holder of the pool lock can always move ---- *)
 
-  Lemma holder_can_step_inv s : lock_inv s -> holder_can_step strat nconns tgt s.
+  Lemma holder_can_step_inv s : lock_inv s -> holder_can_step strat false nconns tgt s.
   Proof.
-    intros (Hrd & Hmx & [Hrun1 Hrun2] & Hw). unfold holder_can_step.
+    intros (Hrd & Hmx & [Hrun1 Hrun2] & Hw & _). unfold holder_can_step.
     destruct (writer s) as [[|w]|] eqn:Hwr.
     - (* Run inside updateBest *)
       intros obs. unfold PoolWait.step. rewrite (Hrun1 eq_refl). unfold is_writer. rewrite Hwr. discriminate.
@@ -167,124 +227,167 @@ Section Inv.
       destruct (best s) as [b|]; [|discriminate].
       destruct (tgt w <=? head s b)%N; discriminate.
     - (* no writer: the only reader is Run inside notifySubscribers; its send never blocks *)
-      destruct (rpc s) as [|u|u mt [|w rem]|] eqn:Hp; try (left; exact Hrd).
-      + right. right. unfold PoolWait.step. rewrite Hp. discriminate.
+      destruct (rpc s) as [|u|u|u mt [|w rem]| |] eqn:Hp; try (left; exact Hrd).
+      + right. right. left. unfold PoolWait.step. rewrite Hp. discriminate.
       + right. left. unfold PoolWait.step. rewrite Hp. discriminate.
   Qed.
 
   Theorem pool_never_blocks heads b s :
-    reachable (init_state heads b) s -> holder_can_step strat nconns tgt s.
+    reachable (init_state heads b) s -> holder_can_step strat false nconns tgt s.
   Proof. intros Hr. apply holder_can_step_inv. exact (lock_inv_reachable _ _ _ Hr). Qed.
 
-  (** ---- 3. ... and frees the lock by finitely many moves of its own ---- *)
+  (** ---- 3. ... the lock is freed and the announced writer served by finitely many
+          moves of the pool's own goroutines: no reachable deadlock on p.mu, under
+          Go's writer-preference rule ---- *)
 
-  (** what the holder's moves leave alone *)
-  Definition same_outside (w0 : option nat) (s s' : state) : Prop :=
+  Lemma lock_inv_run ls : forall s s', lock_inv s -> run s ls = Some s' -> lock_inv s'.
+  Proof.
+    induction ls as [|l t IH]; intros s s' Hinv Hrun; cbn [PoolWait.run] in Hrun.
+    - injection Hrun as <-. exact Hinv.
+    - destruct (step s l) as [s1|] eqn:Hs; [|discriminate].
+      eapply IH; [|exact Hrun]. eapply lock_inv_step; eassumption.
+  Qed.
+
+  (** what these moves leave alone *)
+  Definition frame (s s' : state) : Prop :=
     head s' = head s /\ pend s' = pend s /\ updq s' = updq s /\
-    (forall w, Some w <> w0 -> wpc s' w = wpc s w) /\
-    (forall w, Some w <> w0 -> wid s' w = wid s w) /\
-    (forall e, In e (wl s) -> In e (wl s')).
+    (forall w r, wpc s w = WUnsub r -> wpc s' w = WUnsub r /\ wid s' w = wid s w) /\
+    (rpc s = RIdle -> rpc s' = RIdle) /\
+    (forall u, rpc s = RWantR u -> rpc s' = RWantR u) /\
+    (rpc s <> RIdle -> (forall u, rpc s <> RWantR u) -> rpc s' = RIdle \/ rpc s' = rpc s) /\
+    (rpc s' = RIdle \/ rpc s' = rpc s).
+
+  Lemma frame_refl s : frame s s.
+  Proof. unfold frame. repeat apply conj; auto. Qed.
+
+  Lemma frame_trans s1 s2 s3 : frame s1 s2 -> frame s2 s3 -> frame s1 s3.
+  Proof.
+    intros (A1 & A2 & A3 & A4 & A5 & A6 & A7 & A8) (B1 & B2 & B3 & B4 & B5 & B6 & B7 & B8).
+    unfold frame. repeat apply conj; try congruence.
+    - intros w r H. destruct (A4 _ _ H) as [H1 H2]. destruct (B4 _ _ H1) as [H3 H4]. split; congruence.
+    - auto.
+    - intros u H. auto.
+    - intros H1 H2. destruct B8 as [B8|B8]; [auto|]. destruct (A7 H1 H2) as [A|A]; [left|right]; congruence.
+    - destruct B8 as [B8|B8]; [auto|]. destruct A8 as [A|A]; [left|right]; congruence.
+  Qed.
 
   Lemma run_sends rem : forall s u mt,
     rpc s = RNotify u mt rem ->
     exists s', run s (repeat LSend (length rem)) = Some s' /\ rpc s' = RNotify u mt [] /\
-      readers s' = readers s /\ writer s' = writer s /\ wl s' = wl s /\ wpc s' = wpc s /\
+      readers s' = readers s /\ writer s' = writer s /\ wreq s' = wreq s /\ wl s' = wl s /\ wpc s' = wpc s /\
       wid s' = wid s /\ head s' = head s /\ pend s' = pend s /\ updq s' = updq s /\ best s' = best s.
   Proof.
     induction rem as [|w rem IH]; intros s u mt Hp; cbn [length repeat PoolWait.run].
     - exists s. repeat apply conj; auto.
     - unfold PoolWait.step at 1. rewrite Hp.
-      match goal with |- context [PoolWait.run _ _ _ ?s1 _] => set (s1' := s1) end.
-      destruct (IH s1' u mt eq_refl) as (s' & Hrun & H1 & H2 & H3 & H4 & H5 & H6 & H7 & H8 & H9 & H10).
+      match goal with |- context [PoolWait.run _ _ _ _ ?s1 _] => set (s1' := s1) end.
+      destruct (IH s1' u mt eq_refl) as (s' & Hrun & H1 & H2 & H3 & H4 & H5 & H6 & H7 & H8 & H9 & H10 & H11).
       exists s'. split; [exact Hrun|]. subst s1'. sred. repeat apply conj; assumption.
   Qed.
 
+  (** the holder of the lock finishes its critical section *)
   Lemma release_frees s :
     lock_inv s ->
-    exists s', run s (release s) = Some s' /\ lock_free s' = true /\
-      same_outside (match writer s with Some (AW w) => Some w | _ => None end) s s' /\
-      (rpc s = RIdle \/ (exists u, rpc s = RWantR u) -> rpc s' = rpc s) /\
-      (rpc s <> RIdle -> (forall u, rpc s <> RWantR u) -> rpc s' = RIdle).
+    exists s', run s (release s) = Some s' /\ lock_free s' = true /\ wreq s' = wreq s /\ frame s s' /\
+      (rpc s = RUpd \/ (exists u mt rem, rpc s = RNotify u mt rem) -> rpc s' = RIdle).
   Proof.
-    intros (Hrd & Hmx & [Hrun1 Hrun2] & Hw). unfold release.
+    intros (Hrd & Hmx & [Hrun1 Hrun2] & Hw & Hq & Hqw & Hex & Hni). unfold release.
     destruct (writer s) as [[|w]|] eqn:Hwr.
     - (* updateBest *)
       pose proof (Hrun1 eq_refl) as Hp. cbn [PoolWait.run]. unfold PoolWait.step.
       rewrite Hp. unfold is_writer. rewrite Hwr.
       eexists. split; [reflexivity|]. sred. rewrite Hp in Hrd.
-      split; [apply lock_free_intro; sred; auto|].
-      split; [unfold same_outside; sred; repeat apply conj; auto|].
-      split; [intros [H|[u H]]; discriminate|auto].
+      split; [apply lock_free_intro; sred; auto|]. split; [reflexivity|].
+      split; [|auto]. unfold frame; sred. rewrite Hp.
+      repeat apply conj; auto; try discriminate. all: try (intros ? ?; discriminate).
     - (* subscribe *)
       assert (Hpc : wpc s w = WSubL) by (apply Hw; reflexivity).
       assert (Hr0 : readers s = 0).
       { rewrite Hrd. destruct (rpc s) eqn:Hp; try reflexivity.
         specialize (Hmx _ _ _ eq_refl). congruence. }
+      assert (Hnot : rpc s = RUpd \/ (exists u mt rem, rpc s = RNotify u mt rem) -> False).
+      { intros [H|(u & mt & rem & H)].
+        - apply Hrun2 in H. congruence.
+        - apply Hmx in H. congruence. }
       cbn [PoolWait.run]. unfold PoolWait.step. rewrite Hpc. unfold is_writer. rewrite Hwr, Nat.eqb_refl.
-      assert (Hnotify : rpc s <> RIdle -> (forall u, rpc s <> RWantR u) -> False).
-      { intros H1 H2. destruct (rpc s) as [|u|u mt rem|] eqn:Hp; try congruence.
-        all: try (eapply H2; reflexivity).
-        all: try (specialize (Hmx _ _ _ eq_refl); congruence).
-        all: try (specialize (Hrun2 eq_refl); congruence). }
+      assert (Hfr : forall v, frame s (set_wpc (set_writer s None) (fupd (wpc s) w v))).
+      { intros v. unfold frame; sred. repeat apply conj; auto.
+        intros w' r H. rewrite fupd_other by congruence. auto. }
       destruct (best s) as [b|].
       + destruct (tgt w <=? head s b)%N.
         all: eexists; split; [reflexivity|]; sred.
         all: split; [apply lock_free_intro; sred; auto|].
-        all: split; [unfold same_outside; sred; repeat apply conj; auto;
-                     try (intros w' Hne; apply fupd_other; congruence);
-                     try (intros e He; apply in_or_app; auto)|].
-        all: split; [auto|intros H1 H2; exfalso; exact (Hnotify H1 H2)].
+        all: split; [reflexivity|].
+        all: split; [|intros H; exfalso; exact (Hnot H)].
+        all: unfold frame; sred; repeat apply conj; auto.
+        all: intros w' r' H'; rewrite !fupd_other by congruence; auto.
       + eexists; split; [reflexivity|]; sred.
-        split; [apply lock_free_intro; sred; auto|].
-        split; [unfold same_outside; sred; repeat apply conj; auto;
-                intros w' Hne; apply fupd_other; congruence|].
-        split; [auto|intros H1 H2; exfalso; exact (Hnotify H1 H2)].
-    - destruct (rpc s) as [|u|u mt rem|] eqn:Hp.
-      + exists s. cbn [PoolWait.run]. split; [reflexivity|]. split; [apply lock_free_intro; auto|].
-        split; [unfold same_outside; repeat apply conj; auto|]. split; [auto|congruence].
-      + exists s. cbn [PoolWait.run]. split; [reflexivity|]. split; [apply lock_free_intro; auto|].
-        split; [unfold same_outside; repeat apply conj; auto|]. split; [auto|].
-        intros _ H. exfalso. eapply H. reflexivity.
-      + destruct (run_sends rem s u mt Hp) as (s1 & Hrun & H1 & H2 & H3 & H4 & H5 & H6 & H7 & H8 & H9 & H10).
+        split; [apply lock_free_intro; sred; auto|]. split; [reflexivity|].
+        split; [apply Hfr|intros H; exfalso; exact (Hnot H)].
+    - destruct (rpc s) as [|u|u|u mt rem| |] eqn:Hp.
+      all: try (exists s; cbn [PoolWait.run]; split; [reflexivity|]; split; [apply lock_free_intro; auto|];
+                split; [reflexivity|]; split; [apply frame_refl|];
+                intros [H|(u' & mt' & rem' & H)]; discriminate).
+      + destruct (run_sends rem s u mt Hp) as (s1 & Hrun & H1 & H2 & H3 & H4 & H5 & H6 & H7 & H8 & H9 & H10 & H11).
         rewrite run_app, Hrun. cbn [PoolWait.run]. unfold PoolWait.step. rewrite H1.
         eexists. split; [reflexivity|]. sred.
         split; [apply lock_free_intro; sred; [rewrite H2, Hrd; reflexivity|congruence]|].
-        split; [unfold same_outside; sred; repeat apply conj; try congruence;
-                try (intros; congruence)|].
-        split; [intros [H|[u' H]]; discriminate|auto].
+        split; [exact H4|]. split; [|auto].
+        unfold frame; sred. repeat apply conj; try congruence; auto; try discriminate.
+        all: try (intros ? ?; discriminate).
+        intros w r H. rewrite H6, H7. auto.
       + specialize (Hrun2 eq_refl). congruence.
   Qed.
 
-  (** from every reachable state the moves of the lock holder alone free the pool lock *)
-  Theorem lock_released heads b s :
-    reachable (init_state heads b) s ->
-    exists s', run s (release s) = Some s' /\ lock_free s' = true.
+  (** with the lock free, the announced writer takes it and finishes *)
+  Lemma serve_done s :
+    lock_inv s -> lock_free s = true ->
+    exists s', run s (serve s) = Some s' /\ lock_free s' = true /\ wreq s' = None /\ frame s s' /\
+      (rpc s = RWantW -> rpc s' = RIdle).
   Proof.
-    intros Hr. destruct (release_frees s (lock_inv_reachable _ _ _ Hr)) as (s' & H1 & H2 & _).
-    eauto.
+    intros (Hrd & Hmx & Hrun & Hw & [Hq1 Hq2] & Hqw & Hex & Hni) Hfree.
+    pose proof Hfree as Hfree'. apply lock_free_true in Hfree' as [Hr0 Hw0]. unfold serve.
+    destruct (wreq s) as [[|w]|] eqn:Hreq.
+    - (* updateBest *)
+      pose proof (Hq1 eq_refl) as Hp. cbn [PoolWait.run]. unfold PoolWait.step at 1.
+      rewrite Hp. unfold is_wreq. rewrite Hreq, Hfree. cbn [andb].
+      unfold PoolWait.step at 1. sred. unfold is_writer. sred.
+      eexists. split; [reflexivity|]. sred.
+      split; [apply lock_free_intro; sred; auto|]. split; [reflexivity|]. split; [|auto].
+      unfold frame; sred. rewrite Hp. repeat apply conj; auto; try discriminate. all: try (intros ? ?; discriminate).
+    - assert (Hwant : wants (wpc s w) = true) by (apply Hqw; reflexivity).
+      assert (Hnw : rpc s = RWantW -> False).
+      { intros H. apply Hq2 in H. congruence. }
+      assert (Hfr : forall s1, head s1 = head s -> pend s1 = pend s -> updq s1 = updq s -> rpc s1 = rpc s ->
+                 (forall w', w' <> w -> wpc s1 w' = wpc s w' /\ wid s1 w' = wid s w') -> frame s s1).
+      { intros s1 E1 E2 E3 E4 E5. unfold frame. rewrite E4. repeat apply conj; auto.
+        intros w' r H. assert (Hne : w' <> w) by (intros ->; rewrite H in Hwant; discriminate).
+        destruct (E5 w' Hne) as [E6 E7]. split; congruence. }
+      destruct (wpc s w) eqn:Hpc; try discriminate Hwant.
+      + (* subscribe *)
+        cbn [PoolWait.run]. unfold PoolWait.step at 1. rewrite Hpc. unfold is_wreq. rewrite Hreq, Nat.eqb_refl, Hfree.
+        cbn [andb]. unfold PoolWait.step at 1. sred. rewrite fupd_same. unfold is_writer. sred. rewrite Nat.eqb_refl.
+        destruct (best s) as [b|].
+        * destruct (tgt w <=? head s b)%N.
+          all: eexists; split; [reflexivity|]; sred.
+          all: split; [apply lock_free_intro; sred; auto|].
+          all: split; [reflexivity|].
+          all: split; [|intros H; exfalso; exact (Hnw H)].
+          all: apply Hfr; sred; auto.
+          all: intros w' Hne; rewrite !fupd_other by assumption; auto.
+        * eexists; split; [reflexivity|]; sred.
+          split; [apply lock_free_intro; sred; auto|]. split; [reflexivity|].
+          split; [|intros H; exfalso; exact (Hnw H)].
+          apply Hfr; sred; auto. intros w' Hne; rewrite !fupd_other by assumption; auto.
+      + (* unsubscribe *)
+        cbn [PoolWait.run]. unfold PoolWait.step at 1. rewrite Hpc. unfold is_wreq. rewrite Hreq, Nat.eqb_refl, Hfree.
+        cbn [andb]. eexists; split; [reflexivity|]; sred.
+        split; [apply lock_free_intro; sred; auto|]. split; [reflexivity|].
+        split; [|intros H; exfalso; exact (Hnw H)].
+        apply Hfr; sred; auto. intros w' Hne; rewrite !fupd_other by assumption; auto.
+    - exists s. cbn [PoolWait.run]. split; [reflexivity|]. split; [exact Hfree|]. split; [exact Hreq|].
+      split; [apply frame_refl|]. intros H. apply Hq2 in H. congruence.
   Qed.
-
-  (** a caller that has left its loop (success, timeout or cancellation) returns:
-      after the holder's own moves its deferred unsubscribe runs *)
-  Theorem wait_returns heads b s w r :
-    reachable (init_state heads b) s -> wpc s w = WUnsub r ->
-    exists s', run s (release s ++ [LUnsub w]) = Some s' /\ wpc s' w = WDone r /\
-               (forall e, In e (wl s') -> fst e <> wid s w).
-  Proof.
-    intros Hr Hpc. pose proof (lock_inv_reachable _ _ _ Hr) as Hinv.
-    destruct (release_frees s Hinv) as (s1 & Hrun & Hfree & (_ & _ & _ & Hwpc & Hwid & _) & _).
-    assert (Hne : Some w <> match writer s with Some (AW w0) => Some w0 | _ => None end).
-    { destruct Hinv as (_ & _ & _ & Hw). destruct (writer s) as [[|w0]|] eqn:Hwr; try discriminate.
-      intros [= <-]. assert (wpc s w = WSubL) by (apply Hw; reflexivity). congruence. }
-    rewrite run_app, Hrun. cbn [PoolWait.run]. unfold PoolWait.step.
-    rewrite (Hwpc w Hne), Hpc, Hfree. eexists. split; [reflexivity|]. sred.
-    split; [apply fupd_same|].
-    intros e He. apply filter_In in He as [_ He]. rewrite (Hwid w Hne) in He.
-    apply negb_true_iff in He. apply N.eqb_neq in He. exact He.
-  Qed.
-
-  (** ---- 4. the update buffer is always drained: Run gets back to its select by
-          moves of the pool's own goroutines, and a pending SetMasterHead completes ---- *)
 
   Lemma forallb_repeat_send n : forallb internal (repeat LSend n) = true.
   Proof. induction n; [reflexivity|exact IHn]. Qed.
@@ -295,6 +398,76 @@ Section Inv.
     destruct (rpc s); try reflexivity.
     rewrite forallb_app, forallb_repeat_send. reflexivity.
   Qed.
+
+  Lemma serve_internal s : forallb internal (serve s) = true.
+  Proof.
+    unfold serve. destruct (wreq s) as [[|w]|]; try reflexivity. destruct (wpc s w); reflexivity.
+  Qed.
+
+  (** from every state satisfying the lock discipline, moves of the pool's own goroutines
+      lead to a state where p.mu is free and nobody is announced *)
+  Lemma settle s :
+    lock_inv s ->
+    exists ls s', forallb internal ls = true /\ run s ls = Some s' /\ lock_inv s' /\
+      lock_free s' = true /\ wreq s' = None /\ frame s s' /\
+      (rpc s <> RIdle -> (forall u, rpc s <> RWantR u) -> rpc s' = RIdle).
+  Proof.
+    intros Hinv.
+    destruct (release_frees s Hinv) as (s1 & Hrun1 & Hfree1 & Hreq1 & Hfr1 & Hidle1).
+    assert (Hinv1 : lock_inv s1) by (eapply lock_inv_run; eassumption).
+    destruct (serve_done s1 Hinv1 Hfree1) as (s2 & Hrun2 & Hfree2 & Hreq2 & Hfr2 & Hidle2).
+    exists (release s ++ serve s1), s2. split.
+    { rewrite forallb_app, release_internal, serve_internal. reflexivity. }
+    split; [rewrite run_app, Hrun1; exact Hrun2|].
+    split; [eapply lock_inv_run; eassumption|].
+    split; [exact Hfree2|]. split; [exact Hreq2|]. split; [eapply frame_trans; eassumption|].
+    intros Hn1 Hn2. destruct Hinv as (_ & _ & _ & _ & _ & _ & _ & Hni).
+    destruct (rpc s) as [|u|u|u mt rem| |] eqn:Hp.
+    - exfalso. apply Hn1. reflexivity.
+    - exfalso. eapply Hn2. reflexivity.
+    - exfalso. eapply Hni. reflexivity.
+    - assert (rpc s1 = RIdle) by (apply Hidle1; right; eauto).
+      destruct Hfr2 as (_ & _ & _ & _ & H5 & _). auto.
+    - destruct Hfr1 as (_ & _ & _ & _ & _ & _ & _ & [H8|H8]).
+      + destruct Hfr2 as (_ & _ & _ & _ & H5 & _). auto.
+      + apply Hidle2. congruence.
+    - assert (rpc s1 = RIdle) by (apply Hidle1; left; reflexivity).
+      destruct Hfr2 as (_ & _ & _ & _ & H5 & _). auto.
+  Qed.
+
+  (** no reachable deadlock on the pool lock *)
+  Theorem lock_released heads b s :
+    reachable (init_state heads b) s ->
+    exists ls s', forallb internal ls = true /\ run s ls = Some s' /\ lock_free s' = true /\ wreq s' = None.
+  Proof.
+    intros Hr. destruct (settle s (lock_inv_reachable _ _ _ Hr)) as (ls & s' & H1 & H2 & _ & H4 & H5 & _).
+    eauto 8.
+  Qed.
+
+  (** a caller that has left its loop (success, timeout or cancellation) returns:
+      after moves of the pool's own goroutines its deferred unsubscribe announces
+      itself, acquires the lock and deletes exactly its own registration *)
+  Theorem wait_returns heads b s w r :
+    reachable (init_state heads b) s -> wpc s w = WUnsub r ->
+    exists ls s', forallb internal ls = true /\
+               run s (ls ++ [LUnsubWant w; LUnsub w]) = Some s' /\ wpc s' w = WDone r /\
+               (forall e, In e (wl s') -> fst e <> wid s w).
+  Proof.
+    intros Hr Hpc.
+    destruct (settle s (lock_inv_reachable _ _ _ Hr)) as (ls & s1 & Hint & Hrun & _ & Hfree & Hreq & Hfr & _).
+    destruct Hfr as (_ & _ & _ & Hw & _). destruct (Hw _ _ Hpc) as [Hpc1 Hwid1].
+    pose proof Hfree as Hfree'. apply lock_free_true in Hfree' as [Hr0 Hw0].
+    exists ls. rewrite run_app, Hrun. cbn [PoolWait.run]. unfold PoolWait.step at 1.
+    rewrite Hpc1, (no_writer_intro _ Hw0 Hreq).
+    unfold PoolWait.step at 1. sred. rewrite fupd_same. unfold is_wreq. sred. rewrite Nat.eqb_refl.
+    unfold lock_free. sred. rewrite Hr0, Hw0. cbn [Nat.eqb andb].
+    eexists. split; [exact Hint|]. split; [reflexivity|]. sred. split; [apply fupd_same|].
+    intros e He. apply filter_In in He as [_ He]. rewrite Hwid1 in He.
+    apply negb_true_iff in He. apply N.eqb_neq in He. exact He.
+  Qed.
+
+  (** ---- 4. the update buffer is always drained: Run gets back to its select by
+          moves of the pool's own goroutines, and a pending SetMasterHead completes ---- *)
 
   Lemma is_order_self s : is_order (map snd (wl s)) s = true.
   Proof.
@@ -311,28 +484,30 @@ Section Inv.
                   updq s' = updq s /\ pend s' = pend s.
   Proof.
     intros Hr. pose proof (lock_inv_reachable _ _ _ Hr) as Hinv.
-    destruct (release_frees s Hinv) as (s1 & Hrun & Hfree & (_ & Hpend & Hupdq & _) & Hkeep & Hidle).
-    pose proof (release_internal s) as Hint.
-    destruct (rpc s) as [|u|u mt rem|] eqn:Hp.
+    destruct (settle s Hinv) as (ls & s1 & Hint & Hrun & Hinv1 & Hfree & Hreq & Hfr & Hidle).
+    destruct Hfr as (_ & Hpend & Hupdq & _ & _ & Hkeep & _).
+    destruct (rpc s) as [|u|u|u mt rem| |] eqn:Hp.
     - exists [], s. repeat apply conj; auto.
-    - (* wait for the lock, RLock, notify everybody, RUnlock *)
-      assert (Hp1 : rpc s1 = RWantR u) by (apply Hkeep; right; eexists; reflexivity).
+    - (* RLock (nobody inside or announced), notify everybody, RUnlock *)
+      assert (Hp1 : rpc s1 = RWantR u) by (apply Hkeep; reflexivity).
       apply lock_free_true in Hfree as [Hr1 Hw1].
       assert (Hs2 : exists s2, step s1 (LRLock (map snd (wl s1))) = Some s2 /\
                   (exists mt rem, rpc s2 = RNotify u mt rem) /\ updq s2 = updq s1 /\ pend s2 = pend s1).
-      { unfold PoolWait.step. rewrite Hp1, Hw1. destruct (same_best s1 (fst u)).
+      { unfold PoolWait.step. rewrite Hp1, (no_writer_intro _ Hw1 Hreq). destruct (same_best s1 (fst u)).
         - rewrite is_order_self. eexists. split; [reflexivity|]. sred. eauto.
         - eexists. split; [reflexivity|]. sred. eauto. }
       destruct Hs2 as (s2 & Hstep & (mt & rem & Hp2) & Hq2 & Hd2).
-      destruct (run_sends rem s2 u mt Hp2) as (s3 & Hrun3 & Hp3 & _ & _ & _ & _ & _ & _ & Hd3 & Hq3 & _).
-      exists (release s ++ [LRLock (map snd (wl s1))] ++ repeat LSend (length rem) ++ [LRUnlock]).
+      destruct (run_sends rem s2 u mt Hp2) as (s3 & Hrun3 & Hp3 & _ & _ & _ & _ & _ & _ & _ & Hd3 & Hq3 & _).
+      exists (ls ++ [LRLock (map snd (wl s1))] ++ repeat LSend (length rem) ++ [LRUnlock]).
       eexists. split.
       { rewrite !forallb_app, Hint, forallb_repeat_send. reflexivity. }
       rewrite run_app, Hrun. cbn [app PoolWait.run]. rewrite Hstep.
       rewrite run_app, Hrun3. cbn [PoolWait.run]. unfold PoolWait.step at 1. rewrite Hp3.
       split; [reflexivity|]. sred. repeat apply conj; congruence.
-    - exists (release s), s1. repeat apply conj; auto. apply Hidle; congruence.
-    - exists (release s), s1. repeat apply conj; auto. apply Hidle; congruence.
+    - exfalso. destruct Hinv as (_ & _ & _ & _ & _ & _ & _ & Hni). exact (Hni _ Hp).
+    - exists ls, s1. repeat apply conj; auto. apply Hidle; [congruence|intros u' H; congruence].
+    - exists ls, s1. repeat apply conj; auto. apply Hidle; [congruence|intros u' H; congruence].
+    - exists ls, s1. repeat apply conj; auto. apply Hidle; [congruence|intros u' H; congruence].
   Qed.
 
   (** the buffer never holds more than its capacity *)
